@@ -5,8 +5,68 @@
 
 package main
 
+// C30, download endpoint: "sends bytes only if their SHA-256 and size match the envelope the caller supplied".
+// The object is buffered into a temporary file while it is hashed. ghostStr(tmpFile, "file.data") is everything
+// written to that file, ghostStr(hasher, "hash.data") everything fed to the hasher (spec/lfs_externals.spec).
+//   - loop invariant: the two are the same byte string and `written` is its length;
+//   - status 200 is written, and the copy to the client starts, only when the lower-case hex SHA-256 of the file
+//     content equals expectedSHA and its length equals expectedSize (equality, not "at most");
+//   - the only body bytes this function sends on the success path come from io.Copy(w, tmpFile) after a successful
+//     Seek(0, io.SeekStart) on that same file.
+// That reading the file back yields what was written is the file system's contract (assumption).
 //@ func (m *lfsModule) streamDownloadWithVerify
 //@   requires m.s3Uploader != nil && m.logger != nil && m.metrics != nil && m.tracker != nil
-//@   loop 1 invariant tmpFile != nil && ghostStr(hasher, "hash.alg") == "sha256" && ghostStr(hasher, "hash.data") == ghostStr(tmpFile, "file.data") && written == int64(len(ghostStr(tmpFile, "file.data"))) && written >= 0
+//@   ghost gseekerr error = nil
+//@   ghost gseeks int = 0
+//@   loop 1 invariant tmpFile != nil && ghostStr(hasher, "hash.alg") == "sha256"
+//@   loop 1 invariant [C30.stream_hashes_what_it_buffers] ghostStr(hasher, "hash.data") == ghostStr(tmpFile, "file.data")
+//@   loop 1 invariant [C30.stream_counts_what_it_buffers] written == len(ghostStr(tmpFile, "file.data")) && written >= 0
+//@   at Seek#1 before assert [C30.stream_rewinds_verified_file] arg_recv == tmpFile && arg0 == 0 && arg1 == 0
+//@   at Seek#1 after set gseekerr = ret1
+//@   at Seek#1 after set gseeks = gseeks + 1
+//@   at WriteHeader#1 before assert [C30.stream_status_200_only_here] arg0 == 200
 //@   at WriteHeader#1 before assert [C30.stream_sha256_matches] lfsHexEncode(lfsHashDigest("sha256", ghostStr(tmpFile, "file.data"))) == expectedSHA
-//@   at WriteHeader#1 before assert [C30.stream_size_matches] int64(len(ghostStr(tmpFile, "file.data"))) == expectedSize
+//@   at WriteHeader#1 before assert [C30.stream_size_matches] len(ghostStr(tmpFile, "file.data")) == expectedSize
+//@   at Copy#1 before assert [C30.stream_sends_verified_file] arg0 == w && as(arg1, "*os.File") == tmpFile && gseeks == 1 && gseekerr == nil && lfsHexEncode(lfsHashDigest("sha256", ghostStr(tmpFile, "file.data"))) == expectedSHA && len(ghostStr(tmpFile, "file.data")) == expectedSize
+//@   at Copy#1 after stop
+
+// The handler passes the caller-supplied envelope values to the verifier unchanged: the SHA-256 trimmed and
+// lower-cased (hex digests are lower-case), the size as given, the key as validated. Only algorithm sha256 and a
+// positive size reach stream mode.
+//@ func (m *lfsModule) handleHTTPDownload
+//@   requires m.s3Uploader != nil && m.logger != nil && m.metrics != nil && m.tracker != nil
+//@   at streamDownloadWithVerify#1 before assert [C30.download_passes_caller_envelope] req.Integrity != nil && arg5 == toLower(trimSpace(req.Integrity.SHA256)) && arg6 == req.Integrity.Size && arg4 == req.Key && arg1 == w
+//@   at streamDownloadWithVerify#1 before assert [C30.download_stream_needs_sha256_and_size] arg6 > 0 && (toLower(trimSpace(req.Integrity.ChecksumAlg)) == "" || toLower(trimSpace(req.Integrity.ChecksumAlg)) == "sha256") && len(arg5) == 64
+//@   at streamDownloadWithVerify#1 after stop
+//@   at PresignGetObject#1 before stop
+
+//@ func (m *lfsModule) lfsValidateHTTPAPIKey
+//@   modular
+//@   nullable m, r
+//@ func (m *lfsModule) lfsValidateObjectKey
+//@   modular
+//@   nullable m
+//@ func newLFSUUID
+//@   modular
+//@ func lfsGetClientIP
+//@   modular
+//@   nullable r
+
+// Helpers that the roots call for logging / metrics / operations tracking / error replies. They are cut out of
+// the exploration: `modular` without a postcondition means the caller assumes NOTHING about what they return and
+// forgets everything they may write (their write set is computed from their bodies; for the ones that reach an
+// unknown external it is the whole heap). No trust is involved.
+//@ func (m *lfsModule) lfsWriteHTTPError
+//@   modular
+//@   nullable m
+//@ func (t *LfsOpsTracker) EmitDownloadRequested
+//@   modular
+//@   nullable t
+//@ func (t *LfsOpsTracker) EmitDownloadCompleted
+//@   modular
+//@   nullable t
+//@ func (t *LfsOpsTracker) EmitDownloadIntegrityFailed
+//@   modular
+//@   nullable t
+//@ func logSafe
+//@   modular
